@@ -13,8 +13,9 @@ settings lookup) and `cli/config_generator.get_config_settings`.
 The parsers themselves (`yaml.safe_load`, `tomllib.load`, `configparser`, `argparse`) are *inputs*:
 the model starts from what they return (`FileOutcome`, `IniOutcome`, `Cli`).
 
-Quirks are kept: `validate` runs **before** the `isinstance(dict)` test, so Python's `in` is applied
-to whatever the parser returned.
+The model follows /repo *after* the fixes d27fc84 (isinstance(dict) test before `validate`; a TOML
+`tool` entry that is not a table counts as a non-mapping), 259b80f (UnicodeDecodeError from tomllib
+is a parse error) and da9ae97 (INI `level`/`confidence` go through `int(.. or 0) or None`).
 
 Limits (stated once): mapping keys are strings; a float/date/bytes document is `FileOutcome.parsedOther`;
 the conversion of legacy blacklist *data* (`blacklist_calls` / `blacklist_imports` sections) is not
@@ -158,16 +159,15 @@ inductive FileOutcome where
   | parsedOther                -- the document (TOML: `tool.bandit`) is a scalar outside `CfgVal` (float, date, …)
 deriving Repr, Inhabited
 
-/-- `tomllib.load(f).get("tool", {}).get("bandit", {})` -/
-def tomlExtract (doc : CfgVal) : M CfgVal := do
-  let tool ← pyDotGet doc "tool".toList
-  match tool with
-  | .null => pure (.map [])          -- key absent (TOML has no null)
-  | t => do
-    let b ← pyDotGet t "bandit".toList
-    match b with
-    | .null => pure (.map [])
-    | v => pure v
+/-- `tool = tomllib.load(f).get("tool", {})`; `tool.get("bandit", {}) if isinstance(tool, dict) else tool` -/
+def tomlExtract (doc : CfgVal) : M CfgVal :=
+  match doc with
+  | .map kvs =>
+    (match lookupKV kvs "tool".toList with
+     | none => pure (.map [])
+     | some (.map t) => pure ((lookupKV t "bandit".toList).getD (.map []))
+     | some t => pure t)
+  | _ => throw .attributeError      -- unreachable: a TOML document is a table
 
 /-- `x or set()` then `key in …` -/
 def inOrEmpty (key : Str) (x : CfgVal) : M Bool := if x.truthy then pyIn key x else pure false
@@ -269,18 +269,17 @@ def convertLegacy (reg : Registry) (cfg : CfgVal) : Outcome Loaded := do
 def extractDoc (isToml : Bool) (doc : CfgVal) : Outcome CfgVal :=
   if isToml then Outcome.ofM (tomlExtract doc) else .ok doc
 
-/-- `BanditConfig(config_file)` for a non-empty path.  Note the order: `validate` first, then the
-`isinstance(dict)` test. -/
+/-- `BanditConfig(config_file)` for a non-empty path: parse, then the `isinstance(dict)` test, then
+`validate`, then the legacy conversion. -/
 def loadConfig (reg : Registry) (isToml : Bool) : FileOutcome → Outcome Loaded
   | .unreadable => .reject .unreadable
   | .syntaxError => .reject .unparsable
-  | .undecodable => if isToml then .crash .other else .reject .unparsable
-  | .parsedOther => .crash .typeError
+  | .undecodable => .reject .unparsable
+  | .parsedOther => .reject .notMapping
   | .parsed doc => do
     let v ← extractDoc isToml doc
-    validate v
     match v with
-    | .map _ => convertLegacy reg v
+    | .map _ => do validate v; convertLegacy reg v
     | _ => .reject .notMapping
 
 /-! ## INI file and `_log_option_source` -/
@@ -292,12 +291,6 @@ inductive IniOutcome where
   | opts (kvs : List (Str × Str))        -- the `[bandit]` section
   | undecodable                          -- UnicodeDecodeError escapes `parse_ini_file`
 deriving Repr, Inhabited
-
-/-- an option value after the INI merge: argparse gives ints, the INI file gives strings -/
-inductive NumOpt where
-  | int (n : Nat)
-  | str (s : Str)
-deriving DecidableEq, Repr, Inhabited
 
 /-- the parsed command line (the options this property is about) -/
 structure Cli where
@@ -318,8 +311,8 @@ structure Args where
   tests : Option Str
   skips : Option Str
   excluded : Str
-  severity : NumOpt
-  confidence : NumOpt
+  severity : Int
+  confidence : Int
   targets : List Str
 deriving DecidableEq, Repr, Inhabited
 
@@ -333,17 +326,34 @@ def srcNone (arg ini : Option Str) : Option Str :=
 def srcDefaultStr (dflt arg : Str) (ini : Option Str) : Str :=
   if dflt = arg then (match ini with | some s => if s.isEmpty then arg else s | none => arg) else arg
 
-/-- … for the counted options `-l` / `-i` (default 1); the INI value stays a string -/
-def srcDefaultNum (dflt arg : Nat) (ini : Option Str) : NumOpt :=
-  if dflt = arg then (match ini with | some s => if s.isEmpty then .int arg else .str s | none => .int arg) else .int arg
+/-- `int(s)` for an optionally signed ASCII decimal string (anything else: `ValueError`; Python's
+`int` also accepts `_` separators and non-ASCII digits, which are outside the model) -/
+def parseInt? (s : Str) : Option Int :=
+  let digits (d : Str) : Option Nat :=
+    if d.isEmpty || !d.all Char.isDigit then none
+    else some (d.foldl (fun n ch => 10 * n + (ch.toNat - '0'.toNat)) 0)
+  match s with
+  | '-' :: d => (digits d).map fun n => -(n : Int)
+  | '+' :: d => (digits d).map fun n => (n : Int)
+  | d => (digits d).map fun n => (n : Int)
+
+/-- `_log_option_source(1, arg, int(ini or 0) or None, _)` for the counted options `-l` / `-i` -/
+def srcDefaultNum (dflt arg : Nat) (ini : Option Str) : M Int :=
+  match ini with
+  | none => pure arg
+  | some s =>
+    if s.isEmpty then pure arg else
+    match parseInt? s with
+    | none => throw .other                       -- ValueError from `int()`
+    | some n => pure (if dflt = arg then (if n = 0 then (arg : Int) else n) else arg)
 
 def iniGet (kvs : List (Str × Str)) (k : String) : Option Str := (kvs.find? (·.1 == k.toList)).map (·.2)
 
 def Cli.toArgs (c : Cli) : Args :=
   { configFile := c.configFile, profile := c.profile, tests := c.tests, skips := c.skips, excluded := c.excluded,
-    severity := .int c.severity, confidence := .int c.confidence, targets := c.targets }
+    severity := c.severity, confidence := c.confidence, targets := c.targets }
 
-/-- the `if ini_options:` block of `main()`; `dx` is the argparse default of `-x` -/
+/-- the `if ini_options:` block of `main()` without the two counted options; `dx` is the argparse default of `-x` -/
 def mergeIni (dx : Str) (c : Cli) (kvs : List (Str × Str)) : Args :=
   { configFile := srcNone c.configFile (iniGet kvs "configfile"),
     excluded := srcDefaultStr dx c.excluded (iniGet kvs "exclude"),
@@ -354,14 +364,17 @@ def mergeIni (dx : Str) (c : Cli) (kvs : List (Str × Str)) : Args :=
                      | some s => if s.isEmpty then [] else Str.splitOn ',' s
                      | none => []),
     profile := srcNone c.profile (iniGet kvs "profile"),
-    severity := srcDefaultNum 1 c.severity (iniGet kvs "level"),
-    confidence := srcDefaultNum 1 c.confidence (iniGet kvs "confidence") }
+    severity := c.severity, confidence := c.confidence }
 
 def resolveArgs (dx : Str) (c : Cli) : IniOutcome → Outcome Args
   | .absent => pure c.toArgs
   | .unusable => pure c.toArgs
   | .undecodable => .crash .other
-  | .opts kvs => if kvs.isEmpty then pure c.toArgs else pure (mergeIni dx c kvs)
+  | .opts kvs =>
+    if kvs.isEmpty then pure c.toArgs else do
+      let sev ← Outcome.ofM (srcDefaultNum 1 c.severity (iniGet kvs "level"))
+      let conf ← Outcome.ofM (srcDefaultNum 1 c.confidence (iniGet kvs "confidence"))
+      pure { mergeIni dx c kvs with severity := sev, confidence := conf }
 
 /-! ## Selection: `_get_profile`, `-t` and `-s`, `validate_profile`, `_get_filter` -/
 
@@ -465,10 +478,12 @@ structure ScanSetup where
   legacy : Bool         -- legacy blacklist data in play: findings not modelled
 deriving Repr, Inhabited
 
-/-- `constants.RANKING[args.severity - 1]` -/
-def rankIndex : NumOpt → M Nat
-  | .str _ => throw .typeError
-  | .int n => if n ≤ 4 then pure n else throw .indexError
+/-- `constants.RANKING[args.severity - 1]` for the 4-element RANKING, as the 1-based position it
+selects; Python accepts the negative indices -4 … -1 -/
+def rankIndex (n : Int) : M Nat :=
+  if 1 ≤ n ∧ n ≤ 4 then pure n.toNat
+  else if -3 ≤ n ∧ n ≤ 0 then pure (n + 4).toNat
+  else throw .indexError
 
 def stageLoad (w : World) (a : Args) : Outcome Loaded :=
   match a.configFile with
@@ -603,53 +618,5 @@ def PlainDefaults (d : PluginCfg) : Prop := ∀ kv ∈ d, '.' ∉ kv.1 ∧ kv.1 
 instance (d : PluginCfg) : Decidable (PlainDefaults d) := by unfold PlainDefaults; infer_instance
 
 end Spec
-
-/-- **Region of the known finding** `C13-nonmapping-config-traceback`: shapes of the parser result on
-which `validate`-before-`isinstance` raises instead of rejecting. -/
-def scalarLike : CfgVal → Bool
-  | .null => true
-  | .bool _ => true
-  | .int _ => true
-  | .str s => Str.isInfix "profiles".toList s
-  | .list xs => xs.any fun | .str s => s == "profiles".toList | _ => false
-  | .map _ => false
-
-/-- guard of `reject_table_partial`: the parser result is a string or list that does not mention
-`profiles`, or (TOML) `tool` is a table whose `bandit` entry is such a value -/
-def Guard (isToml : Bool) : FileOutcome → Bool
-  | .unreadable => true
-  | .syntaxError => true
-  | .undecodable => !isToml
-  | .parsedOther => false
-  | .parsed doc =>
-    if isToml then
-      (match doc with
-       | .map kvs =>
-         (match lookupKV kvs "tool".toList with
-          | none => true
-          | some (.map t) => (match lookupKV t "bandit".toList with | none => true | some v => !scalarLike v)
-          | some _ => false)
-       | _ => false)
-    else !scalarLike doc
-
-def FileOutcome.isUndecodable : FileOutcome → Bool | .undecodable => true | _ => false
-def NumOpt.isStr : NumOpt → Bool | .str _ => true | .int _ => false
-
-/-- names of the `known_findings.json` regions the input lies in (decided on the *input*, not on the outcome) -/
-def knownRegions (w : World) (c : Cli) (ini : IniOutcome) : List String :=
-  match resolveArgs w.dx c ini with
-  | .ok a =>
-    let fileRegs : List String := match a.configFile with
-      | some p =>
-        if p.isEmpty then [] else
-          let t := Str.endsWith p ".toml".toList
-          let fo := w.file p
-          (if t && fo.isUndecodable then ["C13-toml-undecodable-traceback"] else []) ++
-          (if !Guard t fo && !fo.isUndecodable then ["C13-nonmapping-config-traceback"] else [])
-      | none => []
-    let iniRegs : List String :=
-      if a.severity.isStr || a.confidence.isStr then ["C13-ini-level-confidence-typeerror"] else []
-    fileRegs ++ iniRegs
-  | _ => []
 
 end Bandit.ConfigLoad
